@@ -9,11 +9,17 @@
      independent of nproc in {1,2,3,16} ({1,2,3,5,16,24} thorough); with the worker's filter removed the model still holds at nproc = 1 and
      TLC refutes BeyondRankZero at nproc = 2 (CPCA, constant block: 0/0 block loading -> NaN block score -> null component within the rank).
      Second layer there: a PLS latent variable beyond the rank, built on rounding residue, may alternate between t and -t (no pass contracts);
-     without a ceiling on the passes (Capped = FALSE) TLC returns the lasso through MCycle, with it Terminates holds.
+     without a ceiling on the passes (Capped = FALSE) TLC returns the lasso through MCycle, with it Terminates holds.  The residue iteration
+     can also run through a 2-cycle whose convergence value alternates between two numbers (IterCycle2): a ceiling that counts only the passes
+     without progress (CapRule = "stall") is refilled by every second pass - TLC returns the lasso through MCycle2; CapRule = "passes" holds.
 (GEN) NipalsGen.tla: every matrix <= 3x3 over {-1,0,1} (quick: all <= 4 cells + a deterministic sample), dyadic perturbations, every
      two-valued / constant response, each with its exact rank (ExactRank.tla, rational Gauss elimination) computed by TLC; larger shapes
      (tall / wide / rows around 4, 8, 16, 32, 64 +- 1) as low-rank integer products with duplicated or pairwise distinct rows, exact rank through
-     the row differences; flags for duplicate rows / columns / constant columns decided by TLC on the exact data.
+     the row differences; flags for duplicate rows / columns / constant columns decided by TLC on the exact data; kind "multi": rank-deficient
+     X = A B over {-1,0,1} (4x3, 5x3, 6x4) with a pseudo-random integer response block of 2..3 columns driven by the check's seed, fitted with more
+     latent variables than columns: 3.5 - 4 % of these fits end at the pass ceiling of LVCalc with an alternating convergence value.  After the
+     verdicts TLC certifies from the logged convergence values (cq / cqp of the Iter lines, action TCertify) that this class was reached on the tree
+     under test; otherwise the run is vacuous for the ceiling rule and ends as an infrastructure failure.
 (VAR) per stratum (site, kind, shape, degeneracy flags) the same input is run again as: forced processor count 2 / 3 / 16 (5 / 24) through hook H2
      (PCA, PLS, CPCA; `nthreads` of KMeans and LeaveOneOut), whole input times 2^+-20, columns on offsets 2^20..2^30 (2^36), cells / responses divided
      by 3, 10, 1000 (non-representable constants), after two other fits of the same routine in the same process, response block [y, constant].
@@ -39,15 +45,15 @@ TECHNIQUE = ("TLC liveness model checking of Nipals.tla (termination of the NIPA
              "unguarded variant) and of its kernel layer NipalsMT.tla (which matrix*vector kernel a fit reaches under a forced processor count, with / without "
              "the non-finite-product filter) + TLC-enumerated degenerate inputs with exact rank (NipalsGen/ExactRank: all small matrices, low-rank integer "
              "products of larger shapes) run through the real PCA/PLS/CPCA/MLR-LOO/k-means/Nelder-Mead under hooks H2 (processor counts 1, 2, 3, 16), H4 "
-             "(iteration budget) and H6 (k-means iterations), each also as scaled / offset / non-representable / in-process-history variant + TLC trace validation "
+             "(iteration budget, logged convergence values) and H6 (k-means iterations), each also as scaled / offset / non-representable / in-process-history variant + TLC trace validation "
              "of the recorded iteration events and returned models against the guarded, filtered model (TraceNipals.tla; classification of every component and "
              "all tolerances evaluated by TLC as functions of the logged offset, scale and size)")
 LEVEL_TEXT = ("Termination, zero-variance-beyond-rank and independence of the processor count are model-checked (liveness under weak fairness) for every rank "
               "0..3(4), component request 1..5(6), processor count {1,2,3,16}({1,2,3,5,16,24}) and every site; the real library is then driven through every "
               "TLC-enumerated degenerate input of the tier (all matrices up to 3x3 over {-1,0,1} in the thorough tier, 20 (38) larger shapes up to 33x2 (65x4, 8x8)) "
               "and through a stratified set of variants of them (input classes K1-K8: processor counts, magnitude 2^+-20, location 2^20..2^30(36), non-representable "
-              "constants, in-process histories, duplicate rows / columns, constant columns / blocks / response columns); every recorded execution is accepted or "
-              "rejected by TLC against the guarded model.")
+              "constants, in-process histories, duplicate rows / columns, constant columns / blocks / response columns, seeded multi-response fits that end at the "
+              "pass ceiling with an alternating convergence value - certified by TLC per run); every recorded execution is accepted or rejected by TLC against the guarded model.")
 LEVEL_NOTE = ("Trusts TLC, the placement of hooks H2/H4/H6, the harness's double-precision ledger residuals and its non-finite flags; exhaustive only within the stated "
               "small scopes; the iteration budget decides non-termination (1e5 passes quick, 1e6 thorough, three orders above what a converging fit on such data needs). "
               "nproc > 1 runs use the plain (non-sanitizer) build. Input classes left out on purpose: K9 (missing-value code) and K10 (label alphabets) - the statement "
@@ -69,7 +75,7 @@ def model_check(ctx):
     jobs += [("Nipals", "MC_Nipals_unguarded_var.cfg", "mc_nipals_unguarded_var", 2), ("Nipals", "MC_Nipals_unguarded_counters.cfg", "mc_nipals_counters", 2),
              ("NipalsMT", "MC_NipalsMT_quick.cfg" if q else "MC_NipalsMT_thorough.cfg", "mc_nipalsmt_filtered", 2),
              ("NipalsMT", "MC_NipalsMT_blind.cfg", "mc_nipalsmt_blind_nproc1", 2), ("NipalsMT", "MC_NipalsMT_nofilter.cfg", "mc_nipalsmt_nofilter", 2),
-             ("NipalsMT", "MC_NipalsMT_nocap.cfg", "mc_nipalsmt_nocap", 2)]
+             ("NipalsMT", "MC_NipalsMT_nocap.cfg", "mc_nipalsmt_nocap", 2), ("NipalsMT", "MC_NipalsMT_stall.cfg", "mc_nipalsmt_stall", 2)]
     with ThreadPoolExecutor(max(1, min(3, PAR // 2))) as ex:
         res = list(ex.map(lambda j: tlclive.run_live(j[0], j[1], workers=j[3], timeout=900), jobs))
     R = {}
@@ -103,7 +109,7 @@ def model_check(ctx):
     if not r.ok:
         raise InfraError("NipalsMT.tla (both filters): %s fails in the model itself:\n%s" % (r.violation, r.trace_text[:1500]))
     if r.coverage.get("MRegular", (0, 0))[0] == 0 or r.coverage.get("MPoison", (1, 1))[0] != 0 or \
-            r.coverage.get("MCycle", (0, 0))[1] == 0 or r.coverage.get("MCapExit", (0, 0))[1] == 0:     # [1]: times taken (their successors are states other actions reach too)
+            r.coverage.get("MCycle", (0, 0))[1] == 0 or r.coverage.get("MCycle2", (0, 0))[1] == 0 or r.coverage.get("MCapExit", (0, 0))[1] == 0:     # [1]: times taken (their successors are states other actions reach too)
         raise InfraError("NipalsMT.tla (both filters, ceiling): unexpected action coverage %s" % r.coverage)
     r = R["mc_nipalsmt_blind_nproc1"]
     if not r.ok:
@@ -118,11 +124,19 @@ def model_check(ctx):
              % ("{1,2,3,16}" if q else "{1,2,3,5,16,24}", R["mc_nipalsmt_filtered"].distinct))
     # pass-ceiling layer: without a ceiling on the passes of one PLS latent variable a fair behaviour cycles for ever beyond the rank
     r = R["mc_nipalsmt_nocap"]
-    if r.ok or not str(r.violation).startswith("temporal") or not any(a == "MCycle" for a, _, _ in r.lasso):
+    if r.ok or not str(r.violation).startswith("temporal") or not any(a in ("MCycle", "MCycle2") for a, _, _ in r.lasso):
         raise InfraError("NipalsMT.tla (Capped = FALSE): expected the non-termination lasso through MCycle, got %s / %s" % (r.violation, [a for a, _, _ in r.lasso]))
     path = ["%s%s" % (a, "(%s)" % arg if arg else "") for a, arg, _ in r.lasso]
     lassos["PLS-no-pass-ceiling"] = dict(path=path, back_to=r.back_to, distinct=r.distinct, wall_s=round(r.wall, 2))
     ctx.note("model (pass-ceiling layer, Capped = FALSE): Terminates violated by PLS beyond the rank, lasso %s, back to state %s; with the ceiling it holds"
+             % (" -> ".join(path), r.back_to))
+    # ... and a ceiling that counts only the passes without progress (CapRule = "stall") never fires on the 2-cycle with alternating values
+    r = R["mc_nipalsmt_stall"]
+    if r.ok or not str(r.violation).startswith("temporal") or not any(a == "MCycle2" for a, _, _ in r.lasso):
+        raise InfraError("NipalsMT.tla (CapRule = stall): expected the non-termination lasso through MCycle2, got %s / %s" % (r.violation, [a for a, _, _ in r.lasso]))
+    path = ["%s%s" % (a, "(%s)" % arg if arg else "") for a, arg, _ in r.lasso]
+    lassos["PLS-stall-ceiling"] = dict(path=path, back_to=r.back_to, distinct=r.distinct, wall_s=round(r.wall, 2))
+    ctx.note("model (pass-ceiling layer, CapRule = stall): Terminates violated by the alternating 2-cycle, lasso %s, back to state %s; with CapRule = passes it holds"
              % (" -> ".join(path), r.back_to))
     ctx.steps["lassos"] = lassos
 
@@ -130,7 +144,18 @@ def model_check(ctx):
 # ---------------------------------------------------------------- (GEN)
 def generate(ctx):
     cfg = "MC_NipalsGen_quick.cfg" if ctx.quick else "MC_NipalsGen_thorough.cfg"
-    r = tlc.run("NipalsGen", cfg, workers=min(8, PAR), timeout=1500, coverage=False, xmx="8g")
+    # the pseudo-random tables of kind "multi" are driven by the check's seed: same constants as the static cfg, Seed replaced
+    rd = tlc.rundir()
+    try:
+        text = open(os.path.join(tlc.SPEC, cfg)).read()
+        if "  Seed = 1\n" not in text:
+            raise InfraError("%s has no `Seed = 1` line to replace" % cfg)
+        rcfg = os.path.join(rd, "gen_seeded.cfg")
+        with open(rcfg, "w") as f:
+            f.write(text.replace("  Seed = 1\n", "  Seed = %d\n" % (ctx.seed % 9973)))
+        r = tlc.run("NipalsGen", rcfg, workers=min(8, PAR), timeout=1500, coverage=False, xmx="8g")
+    finally:
+        shutil.rmtree(rd, ignore_errors=True)
     ctx.add_tlc(r, "gen_nipals")
     if not r.ok:
         raise InfraError("NipalsGen: %s\n%s" % (r.violation, r.trace_text[:1500]))
@@ -285,6 +310,14 @@ def _base_cases(ctx, recs):
                 distinct = len(set(tuple(r_) for r_ in e["cells"]))
                 for k in (2, 3):
                     add("KMEANS", "duplicate-rows" if distinct < k else "regular", e, k, k, rk, rk, noise)
+        if e["kind"] == "multi":
+            # rank-deficient X with a pseudo-random integer response block and more latent variables than the rank: the surplus ones are built on
+            # rounding residue; some of these fits end at the pass ceiling of LVCalc (the class that tells "passes" from "passes without progress").
+            # Only the first latent variable is claimed, and only when every response column has covariance with X (as for two responses above).
+            ys = [v for row in e["y"] for v in row]
+            first = 1 if (rk > 0 and all(e["ycov"])) else 0
+            req = nc + 1 + idx % 2
+            add("PLS", "multi-response" if first else "multi-no-covariance", e, req, nc, first, first, noise, ys=ys)
         if e["kind"] == "prodresp":
             kr = e["krank"]
             for req in (1, nc + 2):
@@ -684,6 +717,8 @@ def run_cases(ctx, cases, budget, child_timeout, maxdiv, label):
                                                      label="trace_nipals_%s_%d" % (label, t[0]), timeout=1500, xmx="4g"), enumerate(chunks)))
             _LAST["pred_ok"] = fp.result()
         ctx.traces(len(clean) + len(firsts))
+        _LAST["ceiling"] = [b for b in clean if b[0].get("id") not in rejected_ids and b[0].get("site") == "PLS"
+                            and any(e.get("e") == "Iter" and e.get("it", 0) >= 10000 for e in b)]      # routing only: TLC decides in _certify_ceiling
         return blocks, [b for b in clean if b[0].get("id") not in rejected_ids]       # clean = accepted by TLC
     finally:
         shutil.rmtree(rd, ignore_errors=True)
@@ -707,6 +742,32 @@ def _mt_coverage(ctx, cases):
     missing = ["%s nproc=%d %s" % (s, n, t) for s, tags in REQUIRED_MT.items() for n in (2, 3, 16) for t in tags if not cnt.get("%s nproc=%d %s" % (s, n, t))]
     if missing:
         raise InfraError("degenerate classes never scheduled at nproc > 1: %s" % missing)
+
+
+def _certify_ceiling(ctx):
+    """vacuity of the pass-ceiling class (after the verdicts): TLC must find, among the accepted PLS fits that logged a pass at or past PLSMAXITER, at
+    least one whose last two convergence values differ (TraceNipals: cert, TCertify) - the class on which a ceiling on the passes WITHOUT PROGRESS never
+    fires.  Not reached on this tree -> the check says nothing about that ceiling -> InfraError (unless the run has verdicts: a tree that loops there
+    shows Diverge lines instead of ceiling exits)."""
+    cand = _LAST.get("ceiling", [])[:120]
+    ev = [e for b in cand for e in b] + [dict(e="Certify")]
+    ok, n, r = tlc.validate_trace("TraceNipals", "Trace_Nipals_prop.cfg", ev)
+    ctx.add_tlc(r, "certify_pass_ceiling")
+    ctx.steps["pass_ceiling_class"] = dict(fits_at_ceiling=len(_LAST.get("ceiling", [])), certified=bool(ok))
+    if ok:
+        ctx.note("pass-ceiling class certified by TLC: %d accepted PLS fits ended at PLSMAXITER, at least one with two distinct convergence values in its last passes"
+                 % len(_LAST.get("ceiling", [])))
+        # binding: the same trace with every cq made equal to cqp must NOT be certified
+        ev2 = [dict(e, cqp=list(e["cq"])) if e.get("e") == "Iter" else dict(e) for e in ev]
+        ok2, _, _ = tlc.validate_trace("TraceNipals", "Trace_Nipals_prop.cfg", ev2)
+        if ok2:
+            raise InfraError("binding lost: the certificate does not depend on the logged convergence values")
+        return
+    if ctx.violations:
+        ctx.note("pass-ceiling class NOT certified on this tree (%d fits at the ceiling) - see the violations" % len(_LAST.get("ceiling", [])))
+        return
+    raise InfraError("vacuous: no accepted PLS fit reached the pass ceiling with an alternating convergence value (%d fits at the ceiling, trace matched up to line %d): "
+                     "the class that distinguishes a ceiling on passes from a ceiling on passes without progress was not exercised" % (len(_LAST.get("ceiling", [])), n))
 
 
 def _binding(ctx, clean, byid):
@@ -834,6 +895,7 @@ def run(ctx):
     ctx.assumptions += [
         "TLC explores Nipals.tla / NipalsMT.tla exhaustively within rank 0..3 (4), components 1..5 (6), contraction budget 3 (5), processor counts {1,2,3,16} ({1,2,3,5,16,24}) only; the class transfer function of a pass was transcribed from pca.c / pls.c / cpca.c by hand",
         "hook H4 is called once per pass of the three while(1) loops with (t't | u'u, normaliser, convergence value); components returned without any pass are reported as `Null` by the harness; hook H6 reports every Lloyd iteration of KMeans",
+        "the iteration budget of a child stays an order of magnitude above PLSMAXITER = 10000, so that a tree whose LVCalc has a ceiling on its passes returns by itself (and is certified to have met the alternating 2-cycle at that ceiling) while a tree whose ceiling never fires is reported as Diverge",
         "non-termination of the real code is decided by an iteration budget (1e5 passes quick / 1e6 thorough) or, for routines without a hook, a wall-clock watchdog per child (20 s quick / 40 s thorough, four times that at nproc > 1; a fit of these sizes takes milliseconds)",
         "the harness logs the explained variance of every returned component (1e-12 percent units) and a non-finite flag; TLC classifies (VarZeroQ = 1e-9 percent plus the variance the centring residue of offset data can show) and compares the harness's double-precision ledger residuals with TolAlg = 1e-8 (plus twice the centring residue for offset data)",
         "PLS: the exact number of latent variables (Krylov dimension of X_c'X_c, X_c'y_c) is computed by TLC for one response (and for a response block [y, constant]); for two varying responses only the first latent variable is claimed; past that count a returned component must be finite, nothing else (it may be built on rounding noise while X has rank left)",
@@ -862,6 +924,7 @@ def run(ctx):
     ctx.cov["exhaustive"] = not ctx.quick
     if clean:
         _binding(ctx, clean, {c["id"]: _full(c) for c in cases})
+    _certify_ceiling(ctx)
 
 
 def replay(ctx, body):
